@@ -94,6 +94,11 @@ CHECKS = {
   technique="runtime monitoring of the real `falco lint` binary: inputs whose verdict is known by construction (injected diagnostics of known rule and severity, syntax breakers, .falco.yml overrides, ignore comments, included modules, snippets) are run in all six {plain,-json} x {none,-v,-vv} flag combinations; monitors compare exit status with the constructed verdict, counts with the constructed multiset, and the six runs with each other",
   text="A lint-clean skeleton is injected with k_E/k_W/k_I diagnostics from an empirically verified catalogue (22 ERROR, 7 WARNING, 2 INFO named rules, plus unnamed ones) in the main file, an included module, nested blocks and snippets with/without @scope; 15 token-level syntax breakers; severity overrides up/down/ignore/partial/invalid; ignore comments covering all or some errors. Exit status != 0 iff syntax error or >=1 effective ERROR; error/warning/info counts equal the construction and are identical across the six modes; -json stdout is exactly one JSON document.",
   note="The construction is cross-checked against the in-process linter; a mismatch is inconclusive, not a violation. Under a syntax error only the exit status is judged (plain mode prints no counts)."),
+ "C12": dict(
+  category="exploration", design_ref="DESIGN.md §4 C12",
+  technique="runtime monitoring, conservation checker over diagnostic multisets of the real linter: every program is linted plain and with ignore directives inserted; each diagnostic is mapped to (file, original line, rule, severity, masked message) and the decorated run must equal the plain run minus exactly the diagnostics located in the covered statements (of the listed rules)",
+  text="Line-based programs with >=4 independent diagnostics of >=3 rules (21 rule names plus rule-less diagnostics, calibrated in every run) at top level, nested in if/else/switch-case blocks, in later subroutines and in included modules; for every statement position all three directive forms x {no rules, listed, unlisted, unknown, two rules} x {#, //, /* */}, pairs of directives (nested, sequential, next-line over next-line, range in range), layouts (CRLF, blank lines, tabs, several leading comments). Nothing outside the covered set may disappear (leak), everything covered must disappear (under), nothing new may appear.",
+  note="Only balanced ranges within one block are generated (the property speaks of start...end pairs). A directive on an include statement is taken to cover the included statements. Statement extents come from the builder's own line bookkeeping."),
 }
 
 NOT_APPLICABLE = {}
